@@ -156,43 +156,40 @@ def _realise(ex, ctx, name, claim, T, regs, cls_name, ctype, cone, W, alpha, eps
         if not getattr(ex, "n_candidates", 0):
             ex.inconclusive.append("realisation budget exhausted without a realised counterexample")
         return
-    defs = []
-    exact = True
-    for (kind, i, j, key), v in list(T.vars.items()):
-        if kind == "PD":
-            if rtype != "hyperrectangle":
+    def build_defs():
+        defs, exact = [], True
+        for (kind, i, j, key), v in list(T.vars.items()):
+            if kind == "PD":
+                if rtype != "hyperrectangle":
+                    continue
+                defs.append(z3.Implies(v, A.rect_pd_def(ctx, W, regs[i], regs[j], True)))
+                defs.append(z3.Implies(z3.Not(v), A.rect_pd_def(ctx, W, regs[i], regs[j], False)))
                 continue
-            defs.append(z3.Implies(v, A.rect_pd_def(ctx, W, regs[i], regs[j], True)))
-            defs.append(z3.Implies(z3.Not(v), A.rect_pd_def(ctx, W, regs[i], regs[j], False)))
-            continue
-        try:
-            s = [_parse(k) for k in key]
-        except Exception:
-            continue
-        # the key stores rendered terms; map the two expected keys back to their terms
-        s = _key_terms(cls_name, a, alpha, eps, nslack, key)
-        if s is None:
-            exact = False
-            continue
-        if rtype == "hyperrectangle":
-            if len(s) != m:
+            s = _key_terms(cls_name, a, alpha, eps, nslack, key)
+            if s is None:
                 exact = False
                 continue
-            if kind == "DOM":
-                defs.append(z3.Implies(v, A.rect_dom_def(W, regs[i], regs[j], s, True)))
-                defs.append(z3.Implies(z3.Not(v), A.rect_dom_def(W, regs[i], regs[j], s, False)))
-            else:
-                defs.append(z3.Implies(v, A.rect_cov_def(ctx, W, regs[i], regs[j], s, True)))
-                defs.append(z3.Implies(z3.Not(v), A.rect_cov_def(ctx, W, regs[i], regs[j], s, False)))
-        else:
-            if kind == "DOM":
-                defs.append(z3.Implies(v, A.sphere_dom_def(W, regs[i], regs[j], s, True)))
-                defs.append(z3.Implies(z3.Not(v), A.sphere_dom_def(W, regs[i], regs[j], s, False)))
-            else:
-                defs.append(z3.Implies(v, A.sphere_cov_def(ctx, W, regs[i], regs[j], s, True)))
-                defs.append(z3.Implies(z3.Not(v), A.sphere_cov_def(ctx, W, regs[i], regs[j], s, False)))
-                if K > 1:
+            if rtype == "hyperrectangle":
+                if len(s) != m:
                     exact = False
+                    continue
+                if kind == "DOM":
+                    defs.append(z3.Implies(v, A.rect_dom_def(W, regs[i], regs[j], s, True)))
+                    defs.append(z3.Implies(z3.Not(v), A.rect_dom_def(W, regs[i], regs[j], s, False)))
+                else:
+                    defs.append(z3.Implies(v, A.rect_cov_def(ctx, W, regs[i], regs[j], s, True)))
+                    defs.append(z3.Implies(z3.Not(v), A.rect_cov_def(ctx, W, regs[i], regs[j], s, False)))
+            else:
+                if kind == "DOM":
+                    defs.append(z3.Implies(v, A.sphere_dom_def(W, regs[i], regs[j], s, True)))
+                    defs.append(z3.Implies(z3.Not(v), A.sphere_dom_def(W, regs[i], regs[j], s, False)))
+                else:
+                    defs.append(z3.Implies(v, A.sphere_cov_def(ctx, W, regs[i], regs[j], s, True)))
+                    defs.append(z3.Implies(z3.Not(v), A.sphere_cov_def(ctx, W, regs[i], regs[j], s, False)))
+                    if K > 1:
+                        exact = False
+        return defs, exact
+    defs, exact = build_defs()
     bounds = [eps.e >= Fraction(1, 16), eps.e <= 2]
     for r in regs:
         if rtype == "hyperrectangle":
@@ -201,15 +198,39 @@ def _realise(ex, ctx, name, claim, T, regs, cls_name, ctype, cone, W, alpha, eps
         else:
             bounds += [c >= -8 for c in zs(r.center)] + [c <= 8 for c in zs(r.center)] + \
                       [sym.to_z3(r.alpha) >= Fraction(1, 8), sym.to_z3(r.alpha) <= 4]
-    try:
-        mdl = ctx.satisfiable([z3.Not(claim)] + defs + bounds, timeout_ms=45000)
-    except Inconclusive:
-        ex.inconclusive.append(f"realisation query unknown for a table refuting '{name}'")
-        return
+    mdl = None
+    for linear in (True, False):   # linear sufficient certificates first (LRA), then Farkas certificates
+        A.LINEAR = linear
+        try:
+            defs, exact = build_defs()
+            mdl = ctx.satisfiable([z3.Not(claim)] + defs + bounds, timeout_ms=45000)
+        except Inconclusive:
+            mdl = None
+            if not linear:
+                ex.inconclusive.append(f"realisation query unknown for a table refuting '{name}'")
+                return
+        finally:
+            A.LINEAR = False
+        if mdl is not None:
+            break
     if mdl is None:
-        if False and exact:  # with margins the definitions are no longer iff: unrealisable ≠ infeasible
-            ctx.note("refuting table geometrically unrealisable (discarded)")
-            ex.notes["unrealisable_tables"] = ex.notes.get("unrealisable_tables", 0) + 1
+        # no robust realisation: decide with the exact (iff) definitions whether the table is realisable at all
+        if exact:
+            A.EXACT = True
+            try:
+                defs0, _ = build_defs()
+                m0 = ctx.satisfiable([z3.Not(claim)] + defs0, timeout_ms=45000)
+            except Inconclusive:
+                m0 = "unknown"
+            finally:
+                A.EXACT = False
+            if m0 is None:
+                ex.notes["unrealisable_tables(discarded: no geometry yields them)"] = \
+                    ex.notes.get("unrealisable_tables(discarded: no geometry yields them)", 0) + 1
+                ex.realise_attempts -= 1
+                return
+            ex.inconclusive.append(f"table refuting '{name}' is realisable only on a predicate boundary (or the exact query "
+                                   f"was undecided): not replayable with a numerical solver")
         else:
             ex.inconclusive.append(f"table refuting '{name}' could not be realised with the (sufficient-only) definitions")
         return
